@@ -102,6 +102,33 @@ func (d *dialRecorder) PostDial(s erpc.PreSession, isRedial bool) *erpc.Status {
 	return nil
 }
 
+// writeOnce counts the pre-write hooks per message (sequence number): a message that
+// is re-sent after a redial is still one message.
+type writeOnce struct {
+	mu sync.Mutex
+	n  map[string]int
+}
+
+func (w *writeOnce) Name() string { return "c13writeonce" }
+func (w *writeOnce) hit(kind string, ctx erpc.WriteCtx) *erpc.Status {
+	w.mu.Lock()
+	w.n[fmt.Sprintf("%s seq=%d", kind, ctx.Output().Seq())]++
+	w.mu.Unlock()
+	return nil
+}
+func (w *writeOnce) PreWriteCall(ctx erpc.WriteCtx) *erpc.Status { return w.hit("PreWriteCall", ctx) }
+func (w *writeOnce) PreWritePush(ctx erpc.WriteCtx) *erpc.Status { return w.hit("PreWritePush", ctx) }
+func (w *writeOnce) worst() (string, int) {
+	w.mu.Lock()
+	defer w.mu.Unlock()
+	for k, n := range w.n {
+		if n > 1 {
+			return k, n
+		}
+	}
+	return "", 0
+}
+
 type c13Case struct {
 	Budget  int32 // redial attempts: 1, 3 or -1 (unlimited)
 	Secure  bool  // both peers run the secure plugin and every message is marked secure
@@ -154,7 +181,8 @@ func runC13(c c13Case) []string {
 	}
 	defer ts.down()
 	rec := &dialRecorder{}
-	cli := w.Peer(erpc.PeerConfig{RedialTimes: c.Budget, RedialInterval: c13Interval, DialTimeout: 2 * time.Second}, append(cliPlugins, rec)...)
+	once := &writeOnce{n: map[string]int{}}
+	cli := w.Peer(erpc.PeerConfig{RedialTimes: c.Budget, RedialInterval: c13Interval, DialTimeout: 2 * time.Second}, append(cliPlugins, rec, once)...)
 	sess, stat := cli.Dial(ts.addr)
 	if !stat.OK() {
 		return []string{"initial dial failed: " + stat.String()}
@@ -418,6 +446,9 @@ func runC13(c c13Case) []string {
 			_ = start
 		}
 	}
+	if k, n := once.worst(); n > 1 {
+		failf("the pre-write hook fired %d times for one message (%s): a message re-sent after a redial is still one message", n, k)
+	}
 	// cleanup: make sure the client session is closed
 	done := make(chan struct{})
 	go func() { sess.Close(); close(done) }()
@@ -449,7 +480,7 @@ func okCallLocked(sess erpc.Session, route string, fails *[]string, n *int) {
 	}
 }
 
-const ruleC13 = "a client session created by Dial over loopback TCP with redial budget 1 / 3 / unlimited (interval 3 ms), optionally with a user-assigned id and optionally with the secure plugin on both peers (every message marked secure), against a harness-owned listener that can kill all connections and refuse new ones; 1-5 generated fault actions: connection killed while idle, killed while a call awaits its (gated) reply, calls and pushes issued while the server is away (unlimited budget), short outage, outage that exhausts the budget (or a long outage with unlimited budget), bursts of concurrent calls; oracle: calls in flight at the loss complete with a connection-class status or their genuine reply (never hang); after the session re-established (redial hook ran again, Health) calls succeed on the same Session value, the user-assigned id is kept and indexed; after exhaustion the close notification fires, the index forgets the session, the pending call and a later call fail with a connection error; unlimited budget survives a long outage; non-trivial = a loss during a call, >=2 losses or exhaustion; distinct by case"
+const ruleC13 = "a client session created by Dial over loopback TCP with redial budget 1 / 3 / unlimited (interval 3 ms), optionally with a user-assigned id and optionally with the secure plugin on both peers (every message marked secure), against a harness-owned listener that can kill all connections and refuse new ones; 1-5 generated fault actions: connection killed while idle, killed while a call awaits its (gated) reply, calls and pushes issued while the server is away (unlimited budget), short outage, outage that exhausts the budget (or a long outage with unlimited budget), bursts of concurrent calls; oracle: the pre-write hooks of the dialling peer fire once per message even when it is re-sent after a redial; calls in flight at the loss complete with a connection-class status or their genuine reply (never hang); after the session re-established (redial hook ran again, Health) calls succeed on the same Session value, the user-assigned id is kept and indexed; after exhaustion the close notification fires, the index forgets the session, the pending call and a later call fail with a connection error; unlimited budget survives a long outage; non-trivial = a loss during a call, >=2 losses or exhaustion; distinct by case"
 
 func TestC13Redial(t *testing.T) {
 	rec := vt.NewRec(t, "C13", "redial", ruleC13)
